@@ -12,7 +12,11 @@ sys.path.insert(0, os.path.join(VERIF, "checks"))
 CLAIMS = {}
 for f in sorted(os.listdir(os.path.join(VERIF, "checks"))):
     if f.endswith(".py") and not f.startswith("_"):
-        mod = importlib.import_module(f[:-3])
+        try:
+            mod = importlib.import_module(f[:-3])
+        except Exception as ex:   # a family under construction must not break the manifest
+            print("skip", f, ex)
+            continue
         if getattr(mod, "READY", False):
             CLAIMS.update(getattr(mod, "CLAIMS", {}))
 
